@@ -1,6 +1,6 @@
 import RgVerif.Model.WalkFs
 /-
-C06: concrete inputs used by `C06_full_fails` (finding F25) and by the non-vacuity example.
+C06: concrete inputs used by `f25_witness_repaired` (former finding F25) and by the non-vacuity example.
 -/
 namespace RgVerif.Walk
 
